@@ -49,6 +49,11 @@ def auto_models(seed):
                  vars={"x1": ["output", 0.912345678912], "x2": ["state", 2.0 ** -13], "k1": ["const", 2.0 ** -20], "k2": ["const", 0.123456789012],
                        "k3": ["const", 1234.5678912345]})
     out.append(("AU-small-and-long-values", dict(n_params=3, small=True), gen.model([small], {"p": dict(ops=["opx"])})))
+    # single-letter parameter names, among them letters of the names the generator uses itself (`dy`, `t`, `y`)
+    sl = dict(name="opx", eqs=[["x1", "de", ["+", ["-", ["*", V("d"), V("x2")], ["*", V("e"), V("x1")]], V("g")]],
+                               ["x2", "de", ["-", ["*", V("a"), V("x1")], V("x2")]]],
+              vars={"x1": ["output", 0.9], "x2": ["state", 0.5], "a": ["const", 0.7], "d": ["const", 1.3], "e": ["const", 0.4], "g": ["const", 0.25]})
+    out.append(("AU-single-letter-parameter-names", dict(n_params=4), gen.model([sl], {"p": dict(ops=["opx"])})))
     # a second-order system: the FIRST equation has no parameter at all, the second has three
     so = dict(name="opx", eqs=[["x1", "de", V("x2")],
                                ["x2", "de", ["+", ["-", ["neg", ["*", V("k1"), V("x1")]], ["*", V("k2"), V("x2")]], V("k3")]]],
